@@ -572,6 +572,25 @@ impl C03 {
                 add(&format!("file-xbin-bare-header {wd}x{ht} flags {flags} data {}", data.len()), "file:xb", "", vec![lit(&h)]);
             }
         }
+        // --- rectangle functions with a single huge coordinate (the others stay on the screen): bottom only, right only, top
+        // only, left only - a guard that tests the wrong one of the four lets the loop run
+        for (name, head, tail) in [("fill", &b"\x1b[65;"[..], &b"$x"[..]), ("erase", b"\x1b[", b"$z"), ("selective-erase", b"\x1b[", b"${"), ("checksum", b"\x1b[1;1;", b"*y"), ("copy", b"\x1b[", b";1;2;2;1$v"), ("attr-change", b"\x1b[", b";1$r"), ("attr-reverse", b"\x1b[", b";1$t")] {
+            for (which, pos) in [("top", 0usize), ("left", 1), ("bottom", 2), ("right", 3)] {
+                let mut parts = vec![lit(head)];
+                for i in 0..4 {
+                    if i > 0 {
+                        parts.push(lit(b";"));
+                    }
+                    if i == pos {
+                        parts.push(Part::B);
+                    } else {
+                        parts.push(lit(if i < 2 { b"1" } else { b"5" }));
+                    }
+                }
+                parts.push(lit(tail));
+                add(&format!("rect-{name}-huge-{which}"), "stream", "", parts);
+            }
+        }
         // --- a macro defined under a huge id, then the functions that walk the macro table: checksum report, macro space
         // report, invocation of another id, reset
         add("macro-huge-id-then-checksum", "stream", "", vec![lit(b"\x1bP"), Part::B, lit(b";0;0!zx\x1b\\\x1b[?63;7n")]);
@@ -743,6 +762,20 @@ impl C03 {
             let mut in_chunk = String::new();
             match chunk {
                 None => plant(&mut bytes),
+                Some(usize::MAX) => {
+                    // the SAUCE record at the end of the file: data type, file type, file size and the four TInfo fields
+                    // (record offsets 86..106) and the comment count / flags (104..106)
+                    if bytes.len() >= 128 {
+                        let rec = bytes.len() - 128;
+                        let o = rec + 86 + off % 22;
+                        for (j, b) in val.to_le_bytes().iter().take(width).enumerate() {
+                            if o + j < bytes.len() {
+                                bytes[o + j] = *b;
+                            }
+                        }
+                        in_chunk = " SAUCE record".into();
+                    }
+                }
                 Some(ci) => {
                     if let Some(mut chunks) = crate::files::png_split(&seed.bytes) {
                         if let Some((kw, mut payload)) = crate::files::ztxt_decode(&chunks[ci]) {
@@ -862,6 +895,9 @@ impl Prop for C03 {
         self.file_targets.clear();
         for (si, sd) in self.seeds.iter().enumerate() {
             self.file_targets.push((si, None));
+            if sd.api == "buf" && sd.bytes.len() >= 128 && &sd.bytes[sd.bytes.len() - 128..sd.bytes.len() - 123] == b"SAUCE" {
+                self.file_targets.push((si, Some(usize::MAX)));
+            }
             if sd.api == "buf" && sd.ext == "icy" {
                 if let Some(chunks) = crate::files::png_split(&sd.bytes) {
                     for (ci, c) in chunks.iter().enumerate() {
